@@ -2,7 +2,9 @@
 (* Trace validation of real executions of mod_prison against Layer P (PrisonP.tla).  *)
 (* trace.ndjson holds many recorded cases back to back:                               *)
 (*   {"ev":"load","cid":c,"th":T,"p":P,"j":J}     periods in microseconds             *)
-(*   {"ev":"arr","cid":c,"k":key,"lo":t0,"hi":t1,"deny":bool}                         *)
+(*   {"ev":"arr","cid":c,"k":key,"lo":t0,"hi":t1,"deny":bool,"u":bool}                *)
+(* One recorded case per RULE of a product: the verdicts of that rule over the        *)
+(* arrivals of the schedule (u = not observable for that rule).                       *)
 (* lo / hi are the wall-clock readings (microseconds since the start of the case)     *)
 (* taken immediately before and after the call of the module's filter; every clock    *)
 (* reading of the code lies between them.  An arrival is placed at lo; S (slack)      *)
@@ -47,14 +49,15 @@ Why(st, t, deny) ==
 NearM(m, t) == \/ (m.ws # None /\ t - (m.ws + c.p) <= S /\ (m.ws + c.p) - t <= S)
                \/ (m.jail # None /\ t - m.jail <= S /\ m.jail - t <= S)
 
-TWide == /\ Ev.ev = "arr" /\ ~dead /\ Ev.hi - Ev.lo > W
-         /\ pst' = [pst EXCEPT ![Ev.k] = [@ EXCEPT !.mode = "limbo", !.last = Ev.hi,
-                                                  !.hist = Append(@, Ev.lo)]]
+\* u: the verdict of this rule for this arrival is not observable (PASS action, ambiguous or
+\* pre-empted by an earlier CLOSE / FINISH rule)
+TWide == /\ Ev.ev = "arr" /\ ~dead /\ (Ev.hi - Ev.lo > W \/ Ev.u)
+         /\ pst' = [pst EXCEPT ![Ev.k] = PUnknown(c, @, Ev.hi)]
          /\ msync' = [msync EXCEPT ![Ev.k] = FALSE]
          /\ free' = free + 1
          /\ UNCHANGED <<dead, bad, c, mst, decided, drift>>
 
-TArr == /\ Ev.ev = "arr" /\ ~dead /\ Ev.hi - Ev.lo <= W
+TArr == /\ Ev.ev = "arr" /\ ~dead /\ Ev.hi - Ev.lo <= W /\ ~Ev.u
         /\ LET k == Ev.k
                t == Ev.lo
                al == Allowed(c, pst[k], t) IN
